@@ -90,14 +90,46 @@ BatchDevs(l0, e) ==
                      "BatchNormalize changed an element or left Z # 1", Sig(e, "value"))
       ELSE IF ~AllOk(e.l) THEN <<>>
       ELSE IF e.op = "bbytes" THEN
-        One(Len(e.outs) = n /\ \A i \in idx : e.outs[i] = EEnc(PAf(e.l[i])), l0, "C19", "ElementsToBytes differs from the canonical encoding", Sig(e, "value"))
+        One(Len(e.outs) = n /\ \A i \in idx : e.outs[i] = EEnc(PAf(e.l[i])), l0, "C19", "ElementsToBytes differs from the canonical encoding", Sig(e, "value")) \o
+        One(Len(e.outs) = n /\ \A i \in idx : e.outs[i] = EEnc(PAf(e.l[i])), l0, "C07", "ElementsToBytes differs from the canonical encoding", Sig(e, "value"))
       ELSE IF e.op = "bunc" THEN
         One(Len(e.outs) = n /\ \A i \in idx : e.outs[i] = EEncUncompressed(PAf(e.l[i])) /\ e.outs[i] = e.single[i], l0, "C19",
             "BatchToBytesUncompressed differs from the affine (x, y) / from the single-element form", Sig(e, "value"))
       ELSE IF e.op = "bmap" THEN
         One(~e.err /\ Len(e.outs) = n /\ \A i \in idx : e.outs[i] = EMapToScalar(PAf(e.l[i])), l0, "C19",
+            "BatchMapToScalarField differs from x/y mod r", Sig(e, "value")) \o
+        One(~e.err /\ Len(e.outs) = n /\ \A i \in idx : e.outs[i] = EMapToScalar(PAf(e.l[i])), l0, "C11",
             "BatchMapToScalarField differs from x/y mod r", Sig(e, "value"))
       ELSE <<>>
+
+(* C19 on a private heap (long lists, arbitrary pointer aliasing): e.ptrs[i] is the 0-based cell of pointer i *)
+BigBatchDevs(l0, e) ==
+  LET n      == Len(e.ptrs)
+      idx    == 1 .. n
+      cells  == 1 .. Len(e.heap_before)
+      used   == {e.ptrs[i] + 1 : i \in idx}
+      hb(c)  == e.heap_before[c]
+      ha(c)  == e.heap_after[c]
+      normalisable == \A c \in used : hb(c)[3] # N0
+      A(i)   == IAff(hb(e.ptrs[i] + 1))
+      sig(x) == <<"group", e.op, x>>
+  IN  IF e.op = "Bnorm" THEN
+        IF ~normalisable
+        THEN One(e.err, l0, "C19", "BatchNormalize accepted an un-normalisable element", sig("error-missing")) \o
+             One(\A c \in cells : ha(c) = hb(c), l0, "C19", <<"BatchNormalize modified elements although it failed", n, e.sc>>, sig("partial-write"))
+        ELSE One(~e.err, l0, "C19", "BatchNormalize failed on normalisable elements", sig("error")) \o
+             One(\A c \in cells : IF c \in used THEN ha(c)[3] = N1 /\ IAff(ha(c)) = IAff(hb(c)) ELSE ha(c) = hb(c), l0, "C19",
+                 <<"BatchNormalize changed an element, left Z # 1, or touched a cell it was not given", n, e.sc>>, sig("value"))
+      ELSE
+        One(\A c \in cells : ha(c) = hb(c), l0, "C13", <<e.op, "modified its input elements">>, sig("inputs")) \o
+        (IF e.op = "Bbytes" THEN
+           One(Len(e.outs) = n /\ \A i \in idx : e.outs[i] = EEnc(A(i)), l0, "C19", <<"ElementsToBytes differs from the canonical encoding", n, e.sc>>, sig("value")) \o
+           One(Len(e.outs) = n /\ \A i \in idx : e.outs[i] = EEnc(A(i)), l0, "C07", <<"ElementsToBytes differs from the canonical encoding", n, e.sc>>, sig("value"))
+         ELSE IF e.op = "Bunc" THEN
+           One(Len(e.outs) = n /\ \A i \in idx : e.outs[i] = EEncUncompressed(A(i)), l0, "C19", <<"BatchToBytesUncompressed differs from the affine (x, y)", n, e.sc>>, sig("value"))
+         ELSE
+           One(~e.err /\ Len(e.outs) = n /\ \A i \in idx : e.outs[i] = EMapToScalar(A(i)), l0, "C19", <<"BatchMapToScalarField differs from x/y mod r", n, e.sc>>, sig("value")) \o
+           One(~e.err /\ Len(e.outs) = n /\ \A i \in idx : e.outs[i] = EMapToScalar(A(i)), l0, "C11", <<"BatchMapToScalarField differs from x/y mod r", n, e.sc>>, sig("value")))
 
 (* status of the slots after the call, as the specification sees them *)
 NewPst(e) ==
@@ -135,7 +167,8 @@ Next ==
               /\ UNCHANGED <<bad, cnt, srs>>
          [] e.ev = "g" ->
               LET np == NewPst(e) IN
-              /\ bad' = AddBad(bad, ResultDevs(l, e) \o FrameDevs(l, e) \o BatchDevs(l, e) \o ObsDevs(l, e, np))
+              /\ bad' = AddBad(bad, IF e.op \in {"Bnorm", "Bbytes", "Bunc", "Bmap"} THEN BigBatchDevs(l, e) \o FrameDevs(l, e) \o ObsDevs(l, e, np)
+                                     ELSE ResultDevs(l, e) \o FrameDevs(l, e) \o BatchDevs(l, e) \o ObsDevs(l, e, np))
               /\ pool' = [i \in S |-> e.pool[i]]
               /\ pst' = np
               /\ cnt' = Bump(cnt, e.op)
